@@ -1347,7 +1347,10 @@ class _AlwaysSortable(object):
         self.value = value
 
     def sortable_value(self):
-        return (str(type(self)), id(self))
+        # Values that can't be compared are grouped by their type.
+        # Within a type the (stable) sort keeps the original order;
+        # the order must not depend on object addresses.
+        return str(type(self.value))
 
     def __lt__(self, other):
         try:
